@@ -226,12 +226,26 @@ def run_case(doc, fmt, name, preexisting, fault, scratch):
             patches.append(mock.patch("shutil.move", boom_move))
         for p in patches:
             p.start()
+        old_limit = old_sig = None
+        if fault and fault[0] == "fsize":
+            # the operating system cuts writes short: a file-size limit at half the document (SIGXFSZ ignored, so that
+            # write() fails with EFBIG — or, on an unbuffered stream, returns a short count — instead of killing us)
+            import resource
+            import signal as _signal
+            old_limit = resource.getrlimit(resource.RLIMIT_FSIZE)
+            old_sig = _signal.signal(_signal.SIGXFSZ, _signal.SIG_IGN)
+            resource.setrlimit(resource.RLIMIT_FSIZE, (max(1, len(expected) // 2), old_limit[1]))
         try:
             with mock.patch("builtins.print"):
                 doc.serialize(real, format=fmt)
         except Exception as e:
             raised = e
         finally:
+            if old_limit is not None:
+                import resource
+                import signal as _signal
+                resource.setrlimit(resource.RLIMIT_FSIZE, old_limit)
+                _signal.signal(_signal.SIGXFSZ, old_sig)
             for p in patches:
                 p.stop()
     finally:
@@ -255,6 +269,8 @@ def run_case(doc, fmt, name, preexisting, fault, scratch):
             fails.append({"what": "a temp file was left behind after a successful write", "n": len(leftovers)})
     else:
         effective = not (fault[0] == "write" and fault[1] >= max(writes[0], 1) and raised is None)
+        if fault[0] == "fsize" and raised is None and after.get(rel) == expected:
+            effective = False           # (the limit did not bite: the whole document was written)
         if effective:
             if raised is None:
                 fails.append({"what": "a failing write/move did not surface as an exception"})
@@ -308,6 +324,7 @@ def run(tier, seed, log, model_runs=True, enlarged=False):
                     for d in (ds[:2] if tier == "thorough" else ds[:1]):
                         cases.append((d, fmt, name, pre, ("move",)))
                         cases.append((d, fmt, name, pre, ("close",)))
+                        cases.append((d, fmt, name, pre, ("fsize",)))
                         for k in range(0, 4 if tier == "quick" else 8):
                             cases.append((d, fmt, name, pre, ("write", k)))
         for name in REFUSED:
@@ -379,7 +396,7 @@ def run(tier, seed, log, model_runs=True, enlarged=False):
         "evaluations": len(recs),
         "distinct_nontrivial": len({(r.get("name"), r.get("fmt"), r.get("preexisting"), str(r.get("fault"))) for r in recs if not r.get("refused")}),
         "rule": "working-directory sequences (one relative name written from directory A, B, A, C, B: 3 names x 5 calls); file-write cases = format x file name (relative, nested, absolute, spaces, non-ASCII, '#', '?', ';', ':', file: URL) "
-                "x pre-existing destination or not x fault (none, the k-th write call of the stream, the flush at close, the final move); each runs "
+                "x pre-existing destination or not x fault (none, the k-th write call of the stream, the flush at close, the final move, a file-size limit at half the document so that the operating system cuts the write short); each runs "
                 "in a scratch directory with its own temp directory; distinct = distinct (name, format, preexisting, fault)",
         "samples": recs[:2] + recs[-2:],
         "traces_validated_against_impl": len([r for r in recs if not r.get("fault")]) if model_runs else 0,
